@@ -28,8 +28,18 @@ def budget(tier):
 
 
 def generate(tp: Tape, tier: str):
-    profile = tp.weighted([("multi", 4), ("general", 4), ("rechunk", 4), ("reduce", 2)])
-    case = c01.generate(tp, tier, profile=profile)
+    profile = tp.weighted([("multi", 4), ("general", 4), ("rechunk", 4), ("reduce", 2), ("wide", 2)])
+    if profile == "wide":
+        # plans with many (17-48) lazily created arrays: long unfused chains and many requested outputs of cheap
+        # operations on small arrays (housekeeping operations such as create-arrays scale with the number of arrays)
+        n = tp.randint(17, 48)
+        case = c01.generate(tp, tier, profile="elemwise", max_steps=n, min_steps=n, max_outputs=tp.choice([3, 8, 24]),
+                            max_extent=6, allow_zero=False)
+        if tp.coin(2, 3):
+            case["opt"] = dict(kind="off")
+        case["profile"] = "wide"
+    else:
+        case = c01.generate(tp, tier, profile=profile)
     case["store_region"] = tp.coin(1, 3)
     return case
 
@@ -49,6 +59,10 @@ def execute(case, sched=None):
         if ok and rr.phase is None and rr.cb is not None and getattr(rr.cb, "dag", None) is not None:
             violations = oracle(rr)
     counters = c01.run_counters(rr, case)
+    if rr.cb is not None and getattr(rr.cb, "dag", None) is not None:
+        n_arrays = sum(1 for _, d in rr.cb.dag.nodes(data=True) if d.get("type") == "array" and d.get("target") is not None)
+        counters["arrays_in_plans_total"] = n_arrays
+        counters["plans_with_more_than_16_arrays"] = int(n_arrays > 16)
     dg = PR.digest(rr)
     nontrivial = rr.results is not None and counters.get("ops_executed", 0) >= 2
     return dict(violations=violations, violation=violations[0] if violations else None, digest=dg,
